@@ -58,6 +58,52 @@ CHECKS = {
             R("TestC06RealDER", 200, 800, ts=4),
         ],
     },
+    "C07": {
+        "pkg": "c07", "level": "exploration",
+        "manifest": {
+            "text": "model-based histories over a real shim agent and a directly observed keyring, with certificates of every validity class incl. the forever value, values above MaxInt64 and certificates that lapse during the history",
+            "note": "sequential histories; wall-clock only enters through explicit lapse steps with a 1 s guard, ambiguous histories are abandoned, never reported",
+            "technique": "stateful property-based testing (rapid) against a reference model of the purge rules",
+        },
+        "assumptions": ["golang.org/x/crypto keyring is the underlying agent", "the purge order documented in the code comments (orphans against the reported list, then expiry) is the contract"],
+        "subchecks": [
+            R("TestC07Purge", 400, 1500, qs=2),
+            R("TestC07Lapse", 6, 30, qs=8, ts=16),
+        ],
+    },
+    "C08": {
+        "pkg": "c08", "level": "exploration",
+        "manifest": {
+            "text": "model-based histories with a lock flag over a real shim agent; the keyring behind the lock-emulating proxy stays inspectable, so 'changes nothing' is checked on the underlying identities directly and on the in-memory table through the post-unlock view",
+            "note": "sequential histories; Forward / Extension are outside the lock statement and are not judged while locked",
+            "technique": "stateful property-based testing (rapid) against a reference model + injected lock/unlock refusals",
+        },
+        "assumptions": ["the proxy emulates ssh-agent lock semantics (empty list, failure for everything else, passphrase compare)"],
+        "subchecks": [R("TestC08Lock", 400, 2000, qs=2)],
+    },
+    "C09": {
+        "pkg": "c09", "level": "exploration",
+        "manifest": {
+            "text": "each generated history runs on a no-upstream shim and on a normal shim over identical keyrings; both are judged by the reference model in which hiding is decided by an independent KeyID decoder",
+            "note": "sequential histories; KeyID classes are constructed per class, the reference decoder is the cross-check",
+            "technique": "stateful property-based testing (rapid): differential pair + reference model",
+        },
+        "assumptions": ["golang.org/x/crypto keyring is the underlying agent"],
+        "subchecks": [R("TestC09NoUpstream", 300, 1500, qs=2)],
+    },
+    "C10": {
+        "pkg": "c10", "level": "exploration",
+        "manifest": {
+            "text": "model-based histories over a real shim agent connected to a harness-served frame-level proxy in front of a real keyring; the keyring is observed directly and only the in-memory table is modelled; fault kinds at construction are enumerated, faults inside histories are generated",
+            "note": "sequential histories only (C11 owns concurrency); after a fault the model only demands errors-not-crashes and the survival of still-valid in-memory certificates; sorting order of listings is not an order and is ignored (multisets)",
+            "technique": "stateful property-based testing (rapid) against a reference model + fault injection at the wire",
+        },
+        "assumptions": ["golang.org/x/crypto keyring is the reference for the underlying agent's semantics", "lock/unlock of the underlying agent is emulated by the proxy with ssh-agent semantics"],
+        "subchecks": [
+            R("TestC10Shim", 400, 1500, qs=2),
+            E("TestC10ConstructFaults"),
+        ],
+    },
     "C14": {
         "pkg": "c14", "level": "exploration",
         "manifest": {
